@@ -2,6 +2,7 @@ package main
 
 import (
 	"fmt"
+	"go/token"
 	"go/types"
 	"sort"
 	"strings"
@@ -198,6 +199,8 @@ func runC13(c *Ctx) {
 		for _, rc := range p.renderedCalls(id) {
 			if strings.HasPrefix(rc.Text, "unicode.Is") {
 				conds = append(conds, strings.SplitN(rc.Text, "(", 2)[0])
+			} else if isDigitByteHelper(p, rc.Call.Common().StaticCallee()) {
+				conds = append(conds, "unicode.IsDigit") // '0' <= c && c <= '9' on a byte
 			}
 		}
 		sort.Strings(conds)
@@ -229,7 +232,7 @@ func runC13(c *Ctx) {
 		sort.Strings(extra)
 		digit := false
 		for _, rc := range p.renderedCalls(num) {
-			if strings.HasPrefix(rc.Text, "unicode.IsDigit(") {
+			if strings.HasPrefix(rc.Text, "unicode.IsDigit(") || isDigitByteHelper(p, rc.Call.Common().StaticCallee()) {
 				digit = true
 			}
 		}
@@ -1327,4 +1330,68 @@ func byteTableOf(p *Program, v ssa.Value, idx ssa.Value) map[int64]string {
 		})
 	}
 	return out
+}
+
+// isDigitByteHelper: a function of package lang with one byte (or rune) parameter and a bool result that
+// is exactly `'0' <= c && c <= '9'`: two comparisons of the parameter with 48 and 57, no other
+// operation or call, and the result is false on the first comparison's false edge and the second
+// comparison otherwise. For a byte this is unicode.IsDigit(rune(c)) (Latin-1 has no other digits).
+func isDigitByteHelper(p *Program, f *ssa.Function) bool {
+	if f == nil || !p.InLang(f) || len(f.Params) != 1 || f.Signature.Recv() != nil || f.Signature.Results().Len() != 1 || len(f.Blocks) == 0 || len(f.Blocks) > 3 {
+		return false
+	}
+	if b, ok := f.Signature.Results().At(0).Type().Underlying().(*types.Basic); !ok || b.Kind() != types.Bool {
+		return false
+	}
+	isParam := func(v ssa.Value) bool {
+		if cv, ok := v.(*ssa.Convert); ok {
+			v = cv.X
+		}
+		return v == ssa.Value(f.Params[0])
+	}
+	var lower, upper *ssa.BinOp
+	other := false
+	allInstrs(f, func(in ssa.Instruction) {
+		switch x := in.(type) {
+		case *ssa.BinOp:
+			kx, xc := constInt(x.X)
+			ky, yc := constInt(x.Y)
+			switch {
+			case xc && isParam(x.Y) && kx == '0' && x.Op == token.LEQ, yc && isParam(x.X) && ky == '0' && x.Op == token.GEQ:
+				lower = x
+			case yc && isParam(x.X) && ky == '9' && x.Op == token.LEQ, xc && isParam(x.Y) && kx == '9' && x.Op == token.GEQ:
+				upper = x
+			default:
+				other = true
+			}
+		case *ssa.If, *ssa.Jump, *ssa.Return, *ssa.Phi, *ssa.Convert, *ssa.DebugRef:
+		default:
+			other = true
+		}
+	})
+	if other || lower == nil || upper == nil {
+		return false
+	}
+	rets := returnsOf(f)
+	if len(rets) != 1 {
+		return false
+	}
+	phi, ok := rets[0].Results[0].(*ssa.Phi)
+	if !ok || len(phi.Edges) != 2 {
+		return false
+	}
+	sawFalse, sawSecond := false, false
+	for i, e := range phi.Edges {
+		pred := phi.Block().Preds[i]
+		if b, isB := constBool(e); isB && !b {
+			if ef, isEdge := edgeFact(pred, phi.Block()); isEdge && !ef.truth && (ef.cond == ssa.Value(lower) || ef.cond == ssa.Value(upper)) {
+				sawFalse = true
+			}
+			continue
+		}
+		if e == ssa.Value(lower) || e == ssa.Value(upper) {
+			sawSecond = true
+		}
+	}
+	return sawFalse && sawSecond
 }
